@@ -1,0 +1,156 @@
+//go:build verif
+
+// Package verifhook provides named observation points for the external
+// verification harness. With the "verif" build tag a hook call can
+//
+//   - append one ndjson event to the file named by VERIF_TRACE (ordering by a
+//     process-wide counter taken inside the hook, i.e. while the caller still
+//     holds whatever lock protects the change it reports),
+//   - end the process without any cleanup at the k-th hit of a site
+//     (VERIF_DIE_AT=site:k), which models a process crash,
+//   - perturb the schedule (VERIF_YIELD=seed:permille),
+//   - call an in-process gate installed by the harness (SetGate), which may
+//     block the calling goroutine to force an interleaving.
+package verifhook
+
+import (
+	"fmt"
+	"os"
+	"runtime"
+	"strconv"
+	"strings"
+	"sync"
+	"sync/atomic"
+	"time"
+)
+
+// Enabled reports whether the hooks are compiled in.
+const Enabled = true
+
+// GateFunc is called at every hook site when installed.
+type GateFunc func(site string, a, b uint64)
+
+var (
+	seq      atomic.Uint64
+	gate     atomic.Pointer[GateFunc]
+	mu       sync.Mutex
+	traceF   *os.File
+	counts   = map[string]uint64{}
+	dieSite  string
+	dieK     uint64
+	yieldOn  bool
+	yieldPm  uint64
+	yieldRnd uint64
+)
+
+func init() {
+	if p := os.Getenv("VERIF_TRACE"); p != "" {
+		f, err := os.OpenFile(p, os.O_WRONLY|os.O_CREATE|os.O_APPEND, 0644)
+		if err == nil {
+			traceF = f
+		}
+	}
+	if d := os.Getenv("VERIF_DIE_AT"); d != "" {
+		if i := strings.LastIndex(d, ":"); i > 0 {
+			dieSite = d[:i]
+			dieK, _ = strconv.ParseUint(d[i+1:], 10, 64)
+		}
+	}
+	if y := os.Getenv("VERIF_YIELD"); y != "" {
+		parts := strings.SplitN(y, ":", 2)
+		if len(parts) == 2 {
+			s, _ := strconv.ParseUint(parts[0], 10, 64)
+			pm, _ := strconv.ParseUint(parts[1], 10, 64)
+			yieldOn, yieldPm, yieldRnd = pm > 0, pm, s*2654435761+1
+		}
+	}
+}
+
+// SetGate installs (or, with nil, removes) the in-process gate.
+func SetGate(g GateFunc) {
+	if g == nil {
+		gate.Store(nil)
+		return
+	}
+	gate.Store(&g)
+}
+
+// SetTrace redirects event output to the given file (nil stops tracing).
+func SetTrace(f *os.File) {
+	mu.Lock()
+	traceF = f
+	mu.Unlock()
+}
+
+// SetDie arms (site, k) as the point where the process ends; k counts hits
+// from the moment of the call.
+func SetDie(site string, k uint64) {
+	mu.Lock()
+	dieSite, dieK = site, k
+	counts[site] = 0
+	mu.Unlock()
+}
+
+// Counts returns a copy of the per-site hit counters.
+func Counts() map[string]uint64 {
+	mu.Lock()
+	defer mu.Unlock()
+	c := make(map[string]uint64, len(counts))
+	for k, v := range counts {
+		c[k] = v
+	}
+	return c
+}
+
+// Count returns the hit counter of one site.
+func Count(site string) uint64 {
+	mu.Lock()
+	defer mu.Unlock()
+	return counts[site]
+}
+
+// ResetCounts clears the hit counters.
+func ResetCounts() {
+	mu.Lock()
+	counts = map[string]uint64{}
+	mu.Unlock()
+}
+
+// At marks a named site.
+func At(site string) { at(site, 0, 0) }
+
+// At1 marks a named site with one scalar.
+func At1(site string, a uint64) { at(site, a, 0) }
+
+// At2 marks a named site with two scalars.
+func At2(site string, a, b uint64) { at(site, a, b) }
+
+func at(site string, a, b uint64) {
+	n := seq.Add(1)
+	mu.Lock()
+	counts[site]++
+	c := counts[site]
+	if traceF != nil {
+		fmt.Fprintf(traceF, "{\"n\":%d,\"site\":%q,\"a\":%d,\"b\":%d,\"hit\":%d}\n", n, site, a, b, c)
+	}
+	die := dieSite != "" && site == dieSite && c == dieK
+	var y uint64
+	if yieldOn {
+		yieldRnd = yieldRnd*6364136223846793005 + 1442695040888963407
+		y = (yieldRnd >> 33) % 1000
+	}
+	mu.Unlock()
+	if die {
+		os.Exit(137)
+	}
+	if g := gate.Load(); g != nil {
+		(*g)(site, a, b)
+	}
+	if yieldOn && y < yieldPm {
+		if y%3 == 0 {
+			time.Sleep(time.Duration(50+y) * time.Microsecond)
+		} else {
+			runtime.Gosched()
+		}
+	}
+}
